@@ -622,6 +622,10 @@ class B(object):
     p = P.lift(p)
     if p.is_const:
       c = p.cval
+      t = CONCRETE_TOL[0]
+      if t:
+        # comparisons of CONCRETE values up to floating-point rounding (see `tolerance`)
+        return B.const(c <= t if op == 'le' else c < 0 if op == 'lt' else abs(c) <= t)
       return B.const(c <= 0 if op == 'le' else c < 0 if op == 'lt' else c == 0)
     if op == 'eq':
       n = -p
@@ -712,6 +716,24 @@ class B(object):
     for a in self.args:
       out.extend(a.polys())
     return out
+
+
+CONCRETE_TOL = [0]
+
+
+class tolerance(object):
+  """Within this context, comparisons between CONCRETE numbers hold up to `tol` (used where the
+  real code produces concrete values with Python float arithmetic, e.g. initializers)."""
+
+  def __init__(self, tol):
+    self.tol = Fr(tol)
+
+  def __enter__(self):
+    self.old = CONCRETE_TOL[0]
+    CONCRETE_TOL[0] = self.tol
+
+  def __exit__(self, *a):
+    CONCRETE_TOL[0] = self.old
 
 
 TRUE = B('const', True)
